@@ -68,6 +68,11 @@ CHECKS = {
    text="All 44 method types (statically instantiated) and all 37 indicators: over/call/apply in generated chunkings incl. empty chunks, new_over/new_apply (empty => Ok(empty)), into_fn/new_fn, IndicatorConfig::over/init_fn, IndicatorInstance::over/into_fn bit-identical to element-wise next with exactly one output per input; WithHistory vs a Vec model, WithLastValue vs an inner instance fed the initial value once; clones fed a different continuation than the original, both equal to replayed twins; peek() = value just produced for all 30 Peekable impls.",
    note="Known finding: Past::peek returns the newest input (known_findings.txt). Methods with dyn OHLCV or pair input have no Sequence-based batch API.",
    ref="DESIGN.md §5 C09"),
+ "C08": dict(
+   technique="metamorphic PBT: constancy under repeated first input and prefix invariance under k leading copies",
+   text="Every method kind (44 + 15 MA kinds) and every indicator with generated valid parameters, first value/candle of any sign, zero, magnitude and shape (generic, flat, zero-volume), k in 1..3n+10 leading copies: outputs of the copies are constant (bit-equal for exact kinds and signals, within the allowance for arithmetic kinds) and the continuation agrees with the run without the copies.",
+   note="Exemptions are the ones the property states. Three known findings (signals of average-comparing indicators on rounding noise; Vidya smoothing a computed series; TrendStrengthIndex 0/0) are classified by construction and listed in known_findings.txt; the checks continue behind them.",
+   ref="DESIGN.md §5 C08, Appendix A"),
 }
 
 PENDING = {
